@@ -45,7 +45,9 @@ def gen_script(rng, nseeds, nsteps):
         for i in range(nsteps):
             lines.append('rand next %d' % rng.choice(maxvs + [rng.randrange(1, 12750001)]))
     # seeding guard: invalid seeds must leave the state alone
-    for bad in [0, P, P + 1, 2 ** 32 - 1, 2 ** 32, 2 ** 63]:
+    # (64-bit argument: values whose low 32 or low 31 bits look valid, and the corners of every width)
+    for bad in [0, P, P + 1, 2 ** 32 - 1, 2 ** 32, 2 ** 63, 2 ** 32 + 1, 2 ** 32 + 5, 2 ** 32 + P - 1, 2 ** 33 + 12345, 2 ** 63 + 1,
+                0x8000000000000001, 0xDEADBEEF12345678, 2 ** 64 - 1, 2 ** 31 + 1, 2 ** 31 + 16807, 2 ** 48 + 7, 3 * 2 ** 32 + 1043618065]:
         lines.append('rand srand %d' % bad)
         lines.append('rand next 1000')
     # adversarial pairs: s'*maxv/P close to an integer (maxv = multiples of P±1 would exceed range; use P itself)
